@@ -146,3 +146,17 @@ Theorem position_index_code_refines_model :
       (0 < dict_val cands (Z.of_nat c) <-> exists v, pos_cand p (nth c ordered []) Y = Some v /\ 0 < v).
 Proof. exact position_candidate_positive. Qed.
 Print Assumptions position_index_code_refines_model.
+
+(* ==== the RELATIONAL property stated directly about the code: two (or three) calls of the functions
+   regenerated from the Python source on this run, related through the key-level views of the frames they
+   return (code_view); obtained by transferring the laws proved from the single-call specs (Laws*.v) along
+   `generated code refines api_join` *)
+From SSJ Require Import CodeLevelBase CodeLevelJoins CodeLevelJoins2 CodeLevelFilters CodeLevelMatcher CodeLevelTight CodeLevelRelBase CodeLevelRelCalls CodeLevelRel CodeLevelRel2 CodeLevelRel3 CodeLevelRel4 CodeLevelRel5 CodeLevelRel6.
+Theorem C07_code_pipeline_JCD :
+  ltac:(let t := type of C07_code_pipeline_jcd in exact t).
+Proof. exact C07_code_pipeline_jcd. Qed.
+Print Assumptions C07_code_pipeline_JCD.
+Theorem C07_code_pipeline_JCD_partial :
+  ltac:(let t := type of C07_code_pipeline_jcd_partial in exact t).
+Proof. exact C07_code_pipeline_jcd_partial. Qed.
+Print Assumptions C07_code_pipeline_JCD_partial.
